@@ -73,6 +73,7 @@ def run(tier, seed):
   for rd in range(nrounds):
     for name in DESIGNERS:
       sd, space_seed = r.randrange(1, 100000), r.randrange(10000)
+      space_seed = space_seed - space_seed % 9 + 3 * ((rd + DESIGNERS.index(name)) % 3) + space_seed % 3   # cycle the benchmark wrappers
       steps = [r.randrange(1, 4) for _ in range(r.choice([4, 7]))]
       modes = ['designer', 'inram'] + (['restore'] if name in SERIALIZABLE else []) + (['benchmark'] if name != 'cmaes' or True else [])
       for mode in modes:
